@@ -107,6 +107,10 @@ def run_op(mod, objs, st):
         objs[st['sector']].AddMarket(objs[st['market']])
     elif op == 'AssetWeighting':
         objs[st['sector']].GenerateAssetWeighting([(c, subst_names(e, objs)) for c, e in st['weights']], st['residual'])
+    elif op == 'AddTermToEq':
+        objs[st['sector']].AddTermToEquation(st['name'], subst_names(st['term'], objs))
+    elif op == 'LogInfo':
+        mod.LogInfo()
     elif op == 'SetAttr':
         setattr(objs[st['sector']], st['attr'], st['value'] if 'ref' not in st else objs[st['ref']])
     elif op == 'AddCashFlow':
@@ -516,10 +520,20 @@ class ProgGen(object):
         if with_gov and gov == 'treasury_cb':
             add('MON', 'MoneyMarket', nm['MON'], issuer_short_code=nm['CB'])
             dep = add('DEP', 'DepositMarket', nm['DEP'], issuer_short_code=nm['TRE'])
-            if rng.random() < 0.8:
-                w = '%s + %s*{%s:r}' % (_fmt(rng.uniform(0.2, 0.6), 3), _fmt(rng.uniform(0.5, 3), 2), dep)
-                ops.append({'kind': 'op', 'op': 'AssetWeighting', 'sector': hh, 'weights': [[nm['DEP'], w]], 'residual': nm['MON']})
-                info['weighted'] = [(hh, [nm['DEP']], nm['MON'])]
+            two_assets = rng.random() < 0.4
+            if two_assets:
+                bond = add('BOND', 'DepositMarket', 'BOND', issuer_short_code=nm['TRE'])
+                ops.append({'kind': 'op', 'op': 'SetExogenous', 'sector': bond, 'name': 'r',
+                            'value': '[%s]*40' % _fmt(rng.uniform(0.0, 0.06), 3)})
+            if rng.random() < 0.8 or two_assets:
+                w = '%s + %s*{%s:r}' % (_fmt(rng.uniform(0.2, 0.4), 3), _fmt(rng.uniform(0.5, 3), 2), dep)
+                weights = [[nm['DEP'], w]]
+                if two_assets:
+                    weights.append(['BOND', '%s + %s*{%s:r}' % (_fmt(rng.uniform(0.1, 0.3), 3), _fmt(rng.uniform(0.5, 2), 2), bond)])
+                    if rng.random() < 0.5:
+                        weights.reverse()
+                ops.append({'kind': 'op', 'op': 'AssetWeighting', 'sector': hh, 'weights': weights, 'residual': nm['MON']})
+                info['weighted'] = [(hh, [wc for wc, _ in weights], nm['MON'])]
             ops.append({'kind': 'op', 'op': 'SetExogenous', 'sector': dep, 'name': 'r',
                         'value': '[%s]*40' % _fmt(rng.uniform(0.0, 0.05), 3)})
         elif with_gov and rng.random() < 0.3 and not gold:
@@ -555,21 +569,23 @@ class ProgGen(object):
         steps.extend(info['ops'])
         return {'maxtime': self.rng.choice([3, 5, 8]), 'steps': steps, 'shape': 'single', 'infos': [info]}
 
-    def federated(self):
-        """Two or three regions sharing a currency; central government in the first."""
+    def federated(self, codes=None, cid_prefix='c', default_currency=True):
+        """Two or three regions sharing a currency; central government in the first.  The later
+        regions are created as Region objects without an explicit currency: they take the model's
+        default currency (that of the most recently added country)."""
         rng = self.rng
         steps = []
         n = rng.choice([2, 2, 3])
-        codes = ['GV', 'N', 'S', 'W'][:n]
-        cur = 'LOC'
+        codes = (codes or ['GV', 'N', 'S', 'W'])[:n]
+        cur = None if default_currency else 'LOC'
         infos = []
-        i0 = self.economy(steps, 'c1', codes[0], currency=cur, gov='random')
+        i0 = self.economy(steps, cid_prefix + '1', codes[0], currency=cur, gov='random')
         infos.append(i0)
         govid = i0['gov']
-        govcode = [s for s in steps if s.get('id') == govid][0]['code']
         ops = list(i0['ops'])
         for j in range(1, n):
-            ij = self.economy(steps, 'c%d' % (j + 1), codes[j], currency=cur, with_gov=False, tax_to=None, allow_capitalists=True)
+            ij = self.economy(steps, '%s%d' % (cid_prefix, j + 1), codes[j], currency=cur, region=default_currency,
+                              with_gov=False, tax_to=None, allow_capitalists=True)
             infos.append(ij)
             ops.extend(ij['ops'])
             # government also buys in this region's goods market (cross-country name: DEM_<country>_<market>)
@@ -623,8 +639,17 @@ class ProgGen(object):
             supcls = [st for st in steps if st.get('id') == sup][0]['cls']
             if supcls == 'FixedMarginBusinessMultiOutput':
                 ops.append({'kind': 'op', 'op': 'AddMarket', 'sector': sup, 'market': mkt})
-            ops.append({'kind': 'op', 'op': 'AddSupplier', 'market': mkt, 'supplier': sup,
-                        'eqn': '%s*DEM_%s' % (_fmt(rng.uniform(0.05, 0.3), 2), infos[a]['nm']['GOOD'])})
+            share = '%s*DEM_%s' % (_fmt(rng.uniform(0.05, 0.3), 2), infos[a]['nm']['GOOD'])
+            home = infos[a]['sectors']['BUS']
+            home_has_rule = any(o.get('op') == 'AddSupplier' and o['market'] == mkt and o['supplier'] == home for o in ops)
+            if rng.random() < 0.35 and not home_has_rule and not any(o.get('op') == 'AddSupplier' and o['market'] == mkt and not o.get('eqn') and o['supplier'] != home for o in ops):
+                # the foreign firm is the RESIDUAL supplier; the home firm gets the allocation rule
+                ops[:] = [o for o in ops if not (o.get('op') == 'AddSupplier' and o['market'] == mkt and o['supplier'] == home)]
+                ops.append({'kind': 'op', 'op': 'AddSupplier', 'market': mkt, 'supplier': home,
+                            'eqn': '%s*DEM_%s' % (_fmt(rng.uniform(0.5, 0.9), 2), infos[a]['nm']['GOOD'])})
+                ops.append({'kind': 'op', 'op': 'AddSupplier', 'market': mkt, 'supplier': sup})
+            else:
+                ops.append({'kind': 'op', 'op': 'AddSupplier', 'market': mkt, 'supplier': sup, 'eqn': share})
         steps.extend(ops)
         return {'maxtime': rng.choice([3, 5]), 'steps': steps, 'shape': 'gold' if gold else 'multizone', 'infos': infos}
 
@@ -660,4 +685,7 @@ def permute_declarations(rng, prog):
 
 def strip_prog(prog):
     """The JSON-able part of a program (for replays)."""
-    return {'maxtime': prog['maxtime'], 'steps': prog['steps'], 'shape': prog.get('shape')}
+    weighted = list(prog.get('weighted', []))
+    for info in prog.get('infos', []):
+        weighted.extend(info.get('weighted', []))
+    return {'maxtime': prog['maxtime'], 'steps': prog['steps'], 'shape': prog.get('shape'), 'weighted': weighted}
